@@ -159,6 +159,10 @@ func fixAsset(s gen.Source, asset string) {
 func litOfType(r *rng.R, t string) gen.Expr {
 	switch t {
 	case "number":
+		if r.Chance(1, 4) {
+			// literals of every magnitude: beyond 2^63 the parser builds another kind of node
+			return gen.N(r.Pick("9223372036854775807", "9223372036854775808", "-9223372036854775809", "18446744073709551616", "340282366920938463463374607431768211456", "007"))
+		}
 		return gen.N(itoa(r.Intn(50)))
 	case "string":
 		return gen.S("str")
@@ -167,6 +171,9 @@ func litOfType(r *rng.R, t string) gen.Expr {
 	case "account":
 		return gen.A(r.Pick("a", "b"))
 	case "monetary":
+		if r.Chance(1, 5) {
+			return gen.M("USD", r.Pick("9223372036854775808", "18446744073709551616"))
+		}
 		return gen.M("USD", itoa(r.Intn(20)))
 	default:
 		return &gen.Ratio{Text: "1/2"}
@@ -208,7 +215,32 @@ func goodValue(r *rng.R, t string) string {
 func typeEdit(r *rng.R, cs *gen.Case) (kind, where string) {
 	sc := cs.Script
 	for attempt := 0; attempt < 10; attempt++ {
-		switch r.Intn(16) {
+		switch r.Intn(18) {
+		case 16, 17: // a variable whose declared type is not what its origin function returns, used as declared
+			fn := r.Pick("balance", "overdraft", "overdraft")
+			if fn == "overdraft" {
+				cs.Flags["experimental-overdraft-function"] = true
+			}
+			t := r.Pick("number", "account", "string", "asset", "portion")
+			name := "misdeclared_origin"
+			d := &gen.VarDecl{Type: t, Name: name, Origin: &gen.Call{Name: fn, Args: []gen.Expr{gen.A("a"), gen.As("USD")}}}
+			pos := r.Intn(len(sc.Vars) + 1)
+			sc.Vars = append(sc.Vars[:pos:pos], append([]*gen.VarDecl{d}, sc.Vars[pos:]...)...)
+			var use gen.Stmt
+			switch t {
+			case "number":
+				use = &gen.Send{Sent: &gen.SentValue{E: &gen.Mon{Asset: gen.As("USD"), Amount: gen.V(name)}}, Src: gen.SA("world"), Dst: gen.DA("sink")}
+			case "account":
+				use = &gen.Send{Sent: &gen.SentValue{E: gen.M("USD", "1")}, Src: gen.SA("world"), Dst: &gen.DstAccount{E: gen.V(name)}}
+			case "asset":
+				use = &gen.Send{Sent: &gen.SentValue{E: &gen.Mon{Asset: gen.V(name), Amount: gen.N("1")}}, Src: gen.SA("world"), Dst: gen.DA("sink")}
+			case "portion":
+				use = &gen.Send{Sent: &gen.SentValue{E: gen.M("USD", "10")}, Src: gen.SA("world"), Dst: &gen.DstAllot{Items: []*gen.DstAllotItem{{A: &gen.AllotVar{V: gen.V(name)}, To: gen.To(gen.DA("sink"))}, {A: &gen.AllotRemaining{}, To: &gen.KOD{Kept: true}}}}}
+			default:
+				use = &gen.Call{Name: "set_account_meta", Args: []gen.Expr{gen.A("sink"), gen.V(name), gen.N("1")}}
+			}
+			sc.Stmts = append(sc.Stmts, use)
+			return "origin-return-type:" + fn, "origin"
 		case 14, 15: // a declared variable written where another type is required (its other uses stay right)
 			if len(sc.Vars) == 0 {
 				continue
